@@ -10,6 +10,7 @@ import (
 	"encoding/json"
 	"fmt"
 	"reflect"
+	"runtime/debug"
 	"strings"
 	"testing"
 	"time"
@@ -45,6 +46,7 @@ func guarded(entry string, in []byte, f func(b []byte) bool) (bool, string) {
 }
 
 func guardedCap(entry string, in []byte, f func(b []byte) bool, spare int) (bool, string) {
+	evid.Crumb(entry, in)
 	b := append(make([]byte, 0, len(in)+spare), in...)
 	b = b[: len(in) : len(in)+spare]
 	tail := b[len(b) : len(b)+spare]
@@ -655,6 +657,8 @@ func hostileCorpus() []decCase {
 }
 
 func TestProp(t *testing.T) {
+	// unbounded recursion in a decoder is to end the process after 64 MB of stack, not after the default 1 GB per shard
+	debug.SetMaxStack(64 << 20)
 	r := evid.Begin(t, "C09")
 	defer r.Finish()
 
